@@ -58,6 +58,11 @@ def gen_case(rng, spec, idx):
         return {'net': G.all_prims_net('v'), 'm': m, 'c_reuse': spec['shard'] % 2 == 1, 'strip_forks': spec['shard'] // 2 % 2 == 1,
                 'sims': (256 if m == 4 else 4096), 'vec': 'exh', 'vseed': 0, 'allprims': True}
     feats = [f for f in FEATS if rng.random() < 0.3]
+    if idx in (2, 3):
+        # beyond the usual sizes: hundreds of gates, deep or wide, dozens of state elements, more than 256 patterns
+        net = G.gen_net(rng, feats=feats, n_gates=rng.choice([200, 450]), n_in=rng.choice([2, 10, 30]), n_ff=rng.choice([0, 9, 36]), n_out=rng.choice([3, 20]))
+        return {'net': net, 'm': rng.choice([4, 8]), 'c_reuse': rng.random() < 0.5, 'strip_forks': rng.random() < 0.4, 'sims': rng.choice([129, 257, 300, 520]),
+                'vec': 'rand', 'vseed': rng.randrange(1 << 30), 'feats': feats, 'punk': rng.choice([0.0, 0.1, 0.3]), 'reuse_sim': rng.random() < 0.3, 'large': True}
     net = G.gen_net(rng, feats=feats, max_gates=rng.choice([12, 30, 60]))
     return {'net': net, 'm': rng.choice([4, 8]), 'c_reuse': rng.random() < 0.5, 'strip_forks': rng.random() < 0.4,
             'sims': rng.choice([1, 3, 8, 9, 17, 33, 64, 67, rng.randint(1, 67)]), 'vec': 'rand', 'vseed': rng.randrange(1 << 30), 'feats': feats,
@@ -93,6 +98,8 @@ def check_case(case, ctx):
     for g in net['gates']:
         ctx.hit(f'prims_m{m}', G.canonical(g['fam'], g['ins'])[0])
     ctx.count(f'cases/m{m}')
+    if case.get('large'):
+        ctx.count('large_cases')
     ctx.count('cases/c_reuse', case['c_reuse'])
     ctx.count('cases/strip_forks', case['strip_forks'])
     val = G.eval_net_mv(net, assign, n, four=(m == 4))
